@@ -684,6 +684,39 @@ func (g *Gen) spoil(d *txDraft, h int64, sh *MState, P *DParams, price *big.Int,
 			}
 			return true
 		}},
+		{"amount-fits-but-not-the-fee", func() bool {
+			// amount <= balance < amount + fee: everything is affordable except the fee on top
+			a := sh.Accounts[d.key.A()]
+			if a == nil || (d.tx.Type != rctypes.TRX_TRANSFER && d.tx.Type != rctypes.TRX_STAKING) || price.Sign() == 0 {
+				return false
+			}
+			amt := new(big.Int).Set(a.Bal)
+			if d.tx.Type == rctypes.TRX_STAKING {
+				amt.Mul(new(big.Int).Div(a.Bal, big1e18), big1e18)
+				if amt.Sign() == 0 {
+					return false
+				}
+			} else if g.rng.Intn(2) == 0 {
+				amt.Sub(amt, big.NewInt(int64(g.rng.Intn(1000))))
+				if amt.Sign() < 0 {
+					return false
+				}
+			}
+			rest := new(big.Int).Sub(a.Bal, amt)
+			gas := new(big.Int).Add(new(big.Int).Div(rest, price), big.NewInt(1))
+			if !gas.IsUint64() || gas.Uint64() > P.MaxTrxGas || gas.Uint64() > 1<<62 {
+				return false
+			}
+			if gas.Uint64() < d.tx.Gas {
+				gas.SetUint64(d.tx.Gas)
+			}
+			d.tx.Gas = gas.Uint64()
+			d.tx.Amount = u256big(amt)
+			if g.rng.Intn(2) == 0 {
+				d.tx.To = d.tx.From // self-transfer / self-stake: sender and receiver are the same record
+			}
+			return true
+		}},
 		{"amount-2^256-1", func() bool {
 			if d.tx.Type == rctypes.TRX_WITHDRAW {
 				return false
